@@ -11,7 +11,7 @@ PROP = "C05"
 LEVEL = "other"
 MODULE = "PropC05"
 THEOREMS = ["C05_operators_total", "C05_division_by_zero_is_an_error", "C05_index_out_of_range_is_an_error",
-            "C05_shift_total"]
+            "C05_shift_total", "C05_compiler_never_panics", "C05_every_node_compiles_safely"]
 
 PRELUDE = ["vi = 5", "vz = 0", "vf = 1.5", "vs = \"ab\"", "va = [1, 2]", "vb = true", "vfn = (x) -> x",
            "vbig = 9223372036854775807", "vneg = 0 - 9223372036854775807 - 1", "ve = []", "vnested = [[1], \"s\", vfn]"]
@@ -111,6 +111,17 @@ def run(tier, seed):
                 stmts = s[:at + 1]
                 run.violation({"what": "the interpreter %s on a parseable program (statement %d): %s" % (kind, at, text),
                                "session": stmts, "failing_statement": s[at] if at < len(s) else None})
+    # every resolved tree of this run lies in the domain of the compiler theorem (wfb)
+    trees = []
+    for r in res:
+        for st in r.get("results", []):
+            trees.extend(st.get("resolved") or [])
+    wterms = ["[%s]" % ";".join(trees[i:i + 40]) for i in range(0, len(trees), 40)]
+    badw = vlib.coq_eval_cases("c05w", sesscheck.IMPORTS + ["CompileWf", "CorrCompile"], wterms, "chk_wfb", shard=20)
+    for j in sorted(badw)[:2]:
+        run.violation({"what": "a tree produced by the parser and the resolver is outside the shape the compiler theorem "
+                               "assumes (wfb false): C05_compiler_never_panics does not speak about it",
+                       "trees": trees[j * 40:(j + 1) * 40][:5]}, no_failing_input=True)
     # the model must agree, Abort = panic included
     stats = sesscheck.classify(run, PROP, sess, res, codes, use_sem=False)
     dist = sesscheck.distribution(sess, res)
@@ -119,9 +130,10 @@ def run(tier, seed):
                        "%d operator/operand/shape combinations (every operator x 21 operands of every type incl. nil, function, "
                        "extreme ints, nested arrays, in 23 statement shapes), %d sessions from the generator's adversarial "
                        "profile and %d token-mutated valid sessions. Any panic, hang or undocumented error is a violation. "
-                       "The VM model (every Go panic site = Abort) must agree on all of them. Proved: operator totality "
-                       "(PropC05.v). Not proved: absence of internal faults for all programs (C05_no_abort_statement)." %
-                       (nexpr, len(adv), len(mut)),
+                       "The VM model (every Go panic site = Abort) must agree on all of them. Proved: operator totality and "
+                       "that the compiler model never panics on trees of the parser's shape (PropC05.v); all %d resolved trees "
+                       "of this run have that shape (chk_wfb). Not proved: absence of internal faults of the VM for all programs." %
+                       (nexpr, len(adv), len(mut), len(trees)),
         "evaluations": stats["statements"],
         "distinct_nontrivial": len({json.dumps(s) for s in sess}),
         "rule": "systematic operator x operand x shape programs + adversarial generated sessions + token mutations; every "
